@@ -550,5 +550,5 @@ func ruleC12Update(c *Ctx) {
 				"the workspace is only told about a change depending on "+bad+": its include tree and index can stay on an older version of the file, and references, rename, completion and hover are answered from it")
 		}
 	}
-	c.census("C12-UPDATE", "calls of Workspace.UpdateFile in the server", n, 2)
+	c.census("C12-UPDATE", "calls of Workspace.UpdateFile in the server", n, 1)
 }
